@@ -12,6 +12,8 @@ use xs::store::{FollowOption, Frame, ReadOptions, Store};
 
 use crate::common::*;
 
+const DUMMY_ID: u128 = 0xffff_ffff_ffff_ffff_ffff_ffff_ffff_fff0;
+
 #[derive(Default)]
 struct GateSt {
     permits: u64,
@@ -216,8 +218,9 @@ pub fn main(args: &[String]) -> i32 {
                         ids[ln] = Some(f.id.to_u128());
                         (f.id.to_u128(), format!("= ok {}", frame_str(&f)))
                     }
-                    Ok(Err(_)) => (0, "= err".to_string()),
-                    Err(_) => (0, "= panic".to_string()),
+                    // a rejected append never shows its id; echo a dummy one no frame has
+                    Ok(Err(_)) => (DUMMY_ID, "= err".to_string()),
+                    Err(_) => (DUMMY_ID, "= panic".to_string()),
                 };
                 (
                     format!(
